@@ -11,7 +11,7 @@ from . import c11
 def gen(rng, tier):
     yield from c11.chain_cases(tier)
     yield from c11.window_cases(tier)
-    for _ in range(450 if tier == "quick" else 8000):
+    for _ in range(450 if tier == "quick" else 2500):
         yield c11.gen_case(rng, loops=("stock", "prio"))
 
 
